@@ -168,7 +168,7 @@ def main(argv=None):
             return 1 if out.get("reproduced") else 0
         return 0
 
-    tasks = [t for t in load_tasks() if prop in t.props]
+    tasks = [t for t in load_tasks() if prop in t.props or prop == "ANY"]
     if a.only:
         tasks = [t for t in tasks if re.search(a.only, t.name)]
     if tier == "quick":
